@@ -113,3 +113,45 @@ Proof.
   split; [apply (simple_list_sound _ 10); vm_compute; reflexivity|].
   eexists. split; [vm_compute; reflexivity|]. cbn. repeat constructor.
 Qed.
+
+(* ---- extended to `break` and the endless `repeat` (Lang/Simulation3.v) ----
+   Every call-free program made of the covered statements, if / else, blocks, `repeat while`, counted `repeat n`,
+   plain `repeat` and `break`, nested to any depth: the compiled and loaded code finishes on the machine model with
+   exactly the events of the reference semantics. *)
+From Bardolph Require Import Lang.Simulation3.
+
+Theorem C01_structured_program_runs_as_its_source_says :
+  forall (p : script) (w : world) (fuel : nat) (evs : list event),
+    SimpleBL (snd (collect p [] [])) false p ->
+    run_src fuel p w = SFinished evs ->
+    exists k, run_program k (compile p) w = Finished evs.
+Proof. exact structured_program_runs_as_its_source_says. Qed.
+Print Assumptions C01_structured_program_runs_as_its_source_says.
+
+(* statement by statement, anywhere in an image, at any distance [after] from the END_LOOP of the enclosing loop: when the
+   source says the statement ends normally the machine is behind its code; when the source says it breaks the machine is
+   at that END_LOOP -- in both cases with the stack and the frames it started with *)
+Theorem C01_break_simulation :
+  forall rt mt inl st, SimpleB mt inl st ->
+  forall after im ss s sig ss' fuel, in_loop_ok inl after -> sim ss s -> code_at im (m_pc s) (c_stmt rt mt false after st) ->
+  Sem.exec rt mt fuel false ss st = ROk sig ss' -> outcome after im ss s sig ss' (c_stmt rt mt false after st).
+Proof. intros rt mt. exact (proj1 (simpleB_simulation rt mt)). Qed.
+Print Assumptions C01_break_simulation.
+
+Example C01_structured_nonvacuous :
+  let p := [SAssign "x" (RLit (LInt 0));
+            SRepeat LInfinite
+                    (SBlock [SAssign "x" (RExpr (EBin BAdd (EVar "x") (ELit (LInt 1))));
+                             SIf (RExpr (EBin BGt (EVar "x") (ELit (LInt 3)))) SBreak None;
+                             SRepeat (LCount (RLit (LInt 5)))
+                                     (SBlock [SPrint (Some (RVar "x"));
+                                              SIf (RExpr (EBin BEq (EVar "x") (ELit (LInt 2)))) (SBlock [SOn OpAll; SBreak]) (Some (SReg R_HUE (RVar "x")))]);
+                             SPrintln (Some (RVar "x"))]);
+            SRepeat (LWhile (RLit (LInt 1))) (SBlock [SSet OpAll; SBreak; SOff OpAll]);
+            SPrintln (Some (RVar "x"))] in
+  let w := [mkLight "a" "g" "l" KPlain [0; 0; 0; 0]] in
+  SimpleBL (snd (collect p [] [])) false p /\ exists evs, run_src 400 p w = SFinished evs /\ (8 <= length evs)%nat.
+Proof.
+  split; [apply (simpleB_list_sound _ 10); vm_compute; reflexivity|].
+  eexists. split; [vm_compute; reflexivity|]. cbn. repeat constructor.
+Qed.
